@@ -1583,6 +1583,10 @@ func fillFloatTexts(c *Case) {
 }
 
 func run(c *Case) {
+	if c.Kind == "numfmt" {
+		runNum(c)
+		return
+	}
 	if tempoKinds[c.Kind] {
 		var body string
 		c.Panic = hx.Catch(func() { body = runTempo(c) })
@@ -1697,13 +1701,15 @@ func main() {
 	r := hx.Rand(f.Seed)
 	mix := []string{"streams", "matrix", "tags", "prommatrix", "vector", "labels", "streams", "tail", "series", "promvector",
 		"streams", "tagvalues", "matrix", "vector", "labels", "prommatrix", "tail", "series", "promscalar", "promerror",
-		"streams", "matrix", "tags", "prommatrix", "streams", "tagvalues", "streams", "tail", "promvector", "matrix",
-		"trace", "search", "searchql", "streams", "trace", "matrix", "vector", "labels", "series", "streams"}
+		"streams", "matrix", "tags", "prommatrix", "numfmt", "tagvalues", "streams", "tail", "promvector", "matrix",
+		"trace", "search", "searchql", "streams", "trace", "matrix", "vector", "labels", "series", "numfmt"}
 	cases := make([]Case, f.N)
 	var waits []func()
 	for i := 0; i < f.N; i++ {
 		kind := mix[i%len(mix)]
-		if tempoKinds[kind] {
+		if kind == "numfmt" {
+			cases[i] = genNumCase(r, i)
+		} else if tempoKinds[kind] {
 			cases[i] = genTempoCase(r, i, kind)
 		} else if promKinds[kind] {
 			cases[i] = genPromCase(r, i, kind)
